@@ -310,7 +310,10 @@ func renderLogKVs(kvs []log.KeyValue, invalidForEmpty bool) string {
 // kindEmptyAsInvalid is the violation kind of the known defect.
 const kindEmptyAsInvalid = "log_empty_value_exported_as_string_INVALID"
 
-func wantRecord(rec sdklog.Record, src Rec, serial int) item {
+// serial is the record's key (its first attribute).
+func (r Rec) serial() int64 { return r.Attrs[0].V.I }
+
+func wantRecord(rec sdklog.Record, src Rec, serial int64) item {
 	it := item{key: fmt.Sprint(serial), alt: map[string][2]string{}, loose: map[string][]string{}}
 	res := rec.Resource()
 	it.add("resource", renderResource(&res))
@@ -432,7 +435,7 @@ func runLogs(c LogCase) ([]vk.Violation, vk.Info) {
 	recs := c.records()
 	var want []item
 	for i := range recs {
-		want = append(want, wantRecord(recs[i], c.Recs[i], i))
+		want = append(want, wantRecord(recs[i], c.Recs[i], c.Recs[i].serial()))
 	}
 	err := lab.use(func() {
 		ctx := context.Background()
